@@ -102,9 +102,12 @@ func LookupWellKnown(ctx context.Context, serverNameType spec.ServerName) (*Well
 	// by checking Content-Length, but it's possible that header will be
 	// missing. Better to be safe than sorry by reading no more than the
 	// WellKnownMaxSize in any case.
-	body, err := io.ReadAll(&io.LimitedReader{R: resp.Body, N: WellKnownMaxSize})
+	body, err := io.ReadAll(&io.LimitedReader{R: resp.Body, N: WellKnownMaxSize + 1})
 	if err != nil {
 		return nil, err
+	}
+	if len(body) > WellKnownMaxSize {
+		return nil, errors.New("well-known response is too large")
 	}
 
 	// Convert result to JSON
